@@ -32,8 +32,12 @@ PLUG_KINDS = (3, 4, 7)
 PLUG_INSTR = (2, 3, 4, 9, 10, 14)
 REQ_KINDS = (9, 12)
 REQ_INSTR = (1, 15)
+PIN_PLUGS = os.environ.get("VF_PIN_PLUGS") == "1"  # quick tier of C10: plugs fixed to LEVEL_2 / electric
+if PIN_PLUGS:
+    PLUG_KINDS = ()
+    PLUG_INSTR = ()
 S1_RELEVANT = KIND == 6 or IK in (4, 9, 10)
-ICE_RELEVANT = KIND in PLUG_KINDS or IK in PLUG_INSTR or KIND == 6
+ICE_RELEVANT = (KIND in PLUG_KINDS or IK in PLUG_INSTR or KIND == 6) and not PIN_PLUGS
 INSTR_TARGET_CELL = {1: 2, 2: 0, 3: 0, 4: 1, 5: 1, 6: 1, 8: 3, 9: 1, 10: 1, 11: 4, 12: 4, 14: 4, 15: 2}
 
 
@@ -61,6 +65,13 @@ def _cell(i):
 
 def _memberships(ms):
     """(vehicle, station s0, base b0, request r0) membership indexes for a scenario"""
+    if ORACLE == "C10":
+        # full grid: vehicle membership x target membership (all targets share it)
+        for mv in range(5):
+            for mt in range(5):
+                if ms == mv * 5 + mt:
+                    return mv, mt, mt, mt
+        return None
     if ms == 0:
         return 0, 0, 0, 0
     if ms == 1:
@@ -82,6 +93,8 @@ def _involved(pre_state, post_state, sim):
                     b = sim.bases.get(x)
                     if b is not None and b.station_id is not None:
                         ids.add(b.station_id)
+        for rid, _phase in getattr(st, "trip_plan", ()):
+            ids.add(rid)
     return ids
 
 
@@ -99,7 +112,7 @@ def _changed(sim, sim2):
     return out
 
 
-def t_instr(
+def _body(
     cell: int,
     plug: int,
     iplug: int,
@@ -114,11 +127,6 @@ def t_instr(
     ms: int,
     ice: bool,
 ) -> bool:
-    """
-    pre: 0 <= cell <= 5 and 0 <= plug <= 3 and 0 <= iplug <= 3 and 0 <= ms <= 2
-    pre: 0 <= r0d <= 3 and 0 <= s1g <= 1
-    post: _
-    """
     c = _cell(cell)
     p = A.plug_of(plug) if KIND in PLUG_KINDS else "LEVEL_2"
     ip = A.plug_of(iplug) if IK in PLUG_INSTR else "LEVEL_2"
@@ -159,10 +167,44 @@ def t_instr(
         return I.counts_ok(sim2, w)
     if ORACLE == "C07":
         return I.loc_ok(sim2, w.vids)
+    if ORACLE == "C08":
+        return I.idx_ok(sim2)
     if ORACLE == "C10":
         return I.mem_ok_vehicle(sim2, v_post)
     if ORACLE == "C17":
         return I.req_ok(sim2, w.vids)
+    if ORACLE == "C03":
+        # applying an instruction never resolves, creates or loses a request, and cannot divert a
+        # vehicle that carries passengers with road still ahead
+        if set(sim2.requests.keys()) != set(sim.requests.keys()):
+            return False
+        for r in rec.reports:
+            if r.report_type.name in ("PICKUP_REQUEST_EVENT", "DROPOFF_REQUEST_EVENT", "CANCEL_REQUEST_EVENT", "ADD_REQUEST_EVENT"):
+                return False
+        st0 = v_pre.vehicle_state
+        if isinstance(st0, A.ServicingTrip) and len(st0.route) > 0:
+            if v_post.vehicle_state is not st0:
+                return False
+        if isinstance(st0, A.ServicingPoolingTrip) and len(st0.trip_plan) > 0 and IK != 15:
+            if v_post.vehicle_state is not st0:
+                return False
+        return v_post.balance == v_pre.balance
+    if ORACLE == "C05":
+        # instructions move no energy and no money
+        for coll in ("vehicles", "stations"):
+            for k, a in getattr(sim, coll).items():
+                b = getattr(sim2, coll)[k]
+                if a is b:
+                    continue
+                if not (a.balance == b.balance):
+                    return False
+                if coll == "vehicles":
+                    if not (I.deq(I.snapshot(a.energy), I.snapshot(b.energy)) and I.deq(I.snapshot(a.energy_gained), I.snapshot(b.energy_gained))
+                            and I.deq(I.snapshot(a.energy_expended), I.snapshot(b.energy_expended))):
+                        return False
+                elif not I.deq(I.snapshot(a.energy_dispensed), I.snapshot(b.energy_dispensed)):
+                    return False
+        return True
     if ORACLE == "C16":
         ok = I.deq(snap0, I.snap_sim(sim))
         sim3 = apply_instructions(sim, env, (instr,))
@@ -186,6 +228,32 @@ def t_instr(
         # frame: nothing but the vehicle and its old / new targets changes
         return _changed(sim, sim2) <= _involved(v_pre.vehicle_state, v_post.vehicle_state, sim2)
     return False
+
+
+def t_instr(
+    cell: int, plug: int, iplug: int, tot: int, g: int, q: int, stalls: int, sg: int, s1g: int,
+    r0d: int, r0p: bool, ms: int, ice: bool,
+) -> bool:
+    """
+    pre: 0 <= cell <= 5 and 0 <= plug <= 3 and 0 <= iplug <= 3 and 0 <= ms <= 2
+    pre: 0 <= r0d <= 3 and 0 <= s1g <= 1
+    post: _
+    """
+    return _body(cell, plug, iplug, tot, g, q, stalls, sg, s1g, r0d, r0p, ms, ice)
+
+
+def t_instr_memb(
+    cell: int, plug: int, iplug: int, tot: int, g: int, q: int, stalls: int, sg: int, s1g: int,
+    r0d: int, r0p: bool, ms: int, ice: bool,
+) -> bool:
+    """
+    membership grid (VF_ORACLE=C10): ms = 5 * vehicle membership + target membership, each in
+    {public, f1, f2, f1+f2, another vehicle's private home-base id}
+    pre: 0 <= cell <= 5 and 0 <= plug <= 3 and 0 <= iplug <= 3 and 0 <= ms <= 24
+    pre: 0 <= r0d <= 3 and 0 <= s1g <= 1
+    post: _
+    """
+    return _body(cell, plug, iplug, tot, g, q, stalls, sg, s1g, r0d, r0p, ms, ice)
 
 
 def t_instr_reach(
